@@ -40,6 +40,7 @@ type World struct {
 	ByPath   map[string]*types.Package
 	CS       *Contracts
 	FuncKeys map[string]*ssa.Function
+	DupKeys  []string // short keys shared by several first-party functions
 	RepoDir  string
 
 	seqType *types.Named
@@ -135,6 +136,16 @@ func loadWorld(repo string, patterns []string, specDir string) (*World, error) {
 			}
 		}
 		k := funcKey(fn)
+		if old, ok := w.FuncKeys[k]; ok && old != fn && w.firstParty(old) && w.firstParty(fn) {
+			// two first-party functions with one short key: choose by full name so
+			// that the choice does not depend on map iteration order
+			w.DupKeys = append(w.DupKeys, k)
+			if old.String() < fn.String() {
+				continue
+			}
+			w.FuncKeys[k] = fn
+			continue
+		}
 		if old, ok := w.FuncKeys[k]; ok && old != fn {
 			// ambiguous short key: prefer first-party
 			if old.Pkg != nil && strings.HasPrefix(old.Pkg.Pkg.Path(), "github.com/saucelabs/forwarder") {
